@@ -34,6 +34,8 @@ def _env():
     e["PYTHONDONTWRITEBYTECODE"] = "1"
     e["PYTHONHASHSEED"] = "0"
     e.pop("DOCTRANS_LINE_LENGTH", None)
+    if e.get("VERIF_REPO"):
+        e["PYTHONPATH"] = e["VERIF_REPO"]  # scratch worktree first (development aid only)
     return e
 
 
@@ -60,8 +62,13 @@ def load_known():
     return json.load(open(f))["findings"]
 
 
+def _wd(prop):
+    """scratch directory of THIS run (unique per process, so a quick and a thorough run of one property can overlap)"""
+    return os.path.join(WORK, "%s_%d" % (prop, os.getpid()))
+
+
 def gen_file(prop, ob, pres, twin, extra_pre=()):
-    d = os.path.join(WORK, prop)
+    d = _wd(prop)
     os.makedirs(d, exist_ok=True)
     fn = os.path.join(d, "%s%s.py" % (ob.name, "_twin" if twin else ""))
     sig = ", ".join("%s: %s" % (n, t) for n, t in ob.params)
@@ -279,8 +286,8 @@ def check(prop, tier):
     t0 = time.time()
     seed = int(os.environ.get("VERIF_SEED", "0") or 0)
     module = "harness." + prop
-    shutil.rmtree(os.path.join(WORK, prop), ignore_errors=True)
-    os.makedirs(os.path.join(WORK, prop), exist_ok=True)
+    shutil.rmtree(_wd(prop), ignore_errors=True)
+    os.makedirs(_wd(prop), exist_ok=True)
     H = importlib.import_module(module)
     obs = H.obligations(tier, seed)
     only = os.environ.get("VERIF_ONLY")  # development aid: substring filter on obligation names
@@ -351,7 +358,7 @@ def check(prop, tier):
     # ---- fresh-process reference values (harness.prepare runs untraced and may spawn sub-processes; traced code only reads them)
     if hasattr(H, "prepare"):
         prep = concrete(module, [{"kind": "prepare"}], tier, seed, timeout=900)[0]
-        pf = os.path.join(WORK, prop, "prepared.json")
+        pf = os.path.join(_wd(prop), "prepared.json")
         json.dump(prep, open(pf, "w"))
         os.environ["VERIF_PREPARED"] = pf
 
@@ -418,7 +425,7 @@ def check(prop, tier):
         "%s %s: obligations=%d discharged=%d inconclusive=%d violated=%d known_findings=%d wall=%.0fs"
         % (prop, tier, len(results), n_dis, n_inc, viol, len(kf_lines), time.time() - t0)
     )
-    shutil.rmtree(os.path.join(WORK, prop), ignore_errors=True)
+    shutil.rmtree(_wd(prop), ignore_errors=True)
     return rc
 
 
